@@ -1,6 +1,7 @@
 package props
 
 import (
+	"bytes"
 	"context"
 	"encoding/binary"
 	"fmt"
@@ -29,7 +30,7 @@ func init() {
 		Bounds: func(tier string) map[string]any {
 			return map[string]any{"max_params": 3, "max_columns": 3, "value_alphabet": []string{"NULL", "", "a", "\\x00", "1"}, "declared_oid_lists": c08OidLists(tier)}
 		},
-		RequiredOutcomes: []string{"with-null", "no-null", "typed", "rebind"},
+		RequiredOutcomes: []string{"with-null", "no-null", "typed", "rebind", "two-portals"},
 	})
 }
 
@@ -444,7 +445,123 @@ func c08RunRebind(cols int, rounds [][]int16) explore.Result {
 	return res
 }
 
+// c08RunTwoPortals: two portals are bound (different parameter values / formats / result formats / sizes)
+// BEFORE either is executed; each Execute must deliver its own Bind's parameters and result formats.
+type c08Bind struct {
+	PF   []int16
+	Vals [][]byte
+	RF   []int16
+}
+
+func c08RunTwoPortals(a, b c08Bind, label string) explore.Result {
+	var res explore.Result
+	res.Outcome = "two-portals"
+	res.Key = "two-portals " + label
+	type seen struct {
+		vals []string
+		fmts []int
+	}
+	var got []seen
+	parse := func(ctx context.Context, q string) (wire.PreparedStatements, error) {
+		return wire.Prepared(wire.NewStatement(func(ctx context.Context, w wire.DataWriter, params []wire.Parameter) error {
+			var s seen
+			for _, p := range params {
+				s.vals = append(s.vals, qbytes(p.Value()))
+				s.fmts = append(s.fmts, int(p.Format()))
+			}
+			got = append(got, s)
+			if err := w.Row([]any{int32(258), int32(259)}); err != nil {
+				return err
+			}
+			return w.Complete("SELECT 1")
+		}, wire.WithColumns(c08Columns(2)))), nil
+	}
+	one, err := harness.StartOne(parse)
+	if err != nil {
+		res.Engine = err.Error()
+		return res
+	}
+	defer one.Stop()
+	one.Step(pgproto.Startup("user", "u"))
+	out, _ := one.Step(pgproto.Cat(pgproto.Parse("s", "q"),
+		pgproto.Bind("first", "s", a.PF, a.Vals, a.RF), pgproto.Describe('P', "first"),
+		pgproto.Bind("second", "s", b.PF, b.Vals, b.RF), pgproto.Describe('P', "second"),
+		pgproto.Execute("first", 0), pgproto.Execute("second", 0), pgproto.Sync()))
+	ms, perr := pgproto.ParseBackend(out)
+	if perr != nil || pgproto.Kinds(ms) != "12T2TDCDCZ" {
+		res.Fail("reply-sequence", fmt.Sprintf("%s: reply %q %v", label, pgproto.Kinds(ms), perr))
+		return res
+	}
+	binds := []c08Bind{a, b}
+	descs := []pgproto.BMsg{ms[2], ms[4]}
+	rows := []pgproto.BMsg{ms[5], ms[7]}
+	for i, bd := range binds {
+		if i >= len(got) {
+			res.Fail("handler-calls", fmt.Sprintf("%s: statement ran %d times", label, len(got)))
+			break
+		}
+		var wantV []string
+		var wantF []int
+		for k, v := range bd.Vals {
+			wantV = append(wantV, qbytes(v))
+			wantF = append(wantF, int(formatRule(bd.PF, k)))
+		}
+		if !sameStrings(wantV, got[i].vals) {
+			res.Fail("parameter-values", fmt.Sprintf("%s: portal %d was bound with %.80v but its Execute delivered %.80v (another Bind on the connection interfered)", label, i+1, wantV, got[i].vals))
+		}
+		if fmt.Sprint(wantF) != fmt.Sprint(got[i].fmts) && len(wantF)+len(got[i].fmts) > 0 {
+			res.Fail("parameter-formats", fmt.Sprintf("%s: portal %d: format codes %v over %d parameters => %v, handler saw %v", label, i+1, bd.PF, len(bd.Vals), wantF, got[i].fmts))
+		}
+		for c, col := range descs[i].Cols {
+			if want := formatRule(bd.RF, c); col.Format != want {
+				res.Fail("result-format-announced", fmt.Sprintf("%s: portal %d column %d: result codes %v => %d, announced %d", label, i+1, c, bd.RF, want, col.Format))
+			}
+			f := rows[i].Row[c]
+			ok := false
+			if col.Format == 0 {
+				ok = string(f) == fmt.Sprint(258+c)
+			} else {
+				ok = len(f) == 4 && int(binary.BigEndian.Uint32(f)) == 258+c
+			}
+			if !ok {
+				res.Fail("result-format-used", fmt.Sprintf("%s: portal %d column %d announced format %d but the field is % x", label, i+1, c, col.Format, f))
+			}
+		}
+	}
+	res.Trans = []string{"parsed|bind first, bind second|two portals", "two portals|execute both|done"}
+	return res
+}
+
 func c08Enumerate(tier string, emit explore.Emit) {
+	{
+		three := func(tag string) [][]byte { return [][]byte{[]byte(tag + "1"), []byte(tag + "2"), []byte(tag + "3")} }
+		secs := formatSections(3)
+		rsecs := formatSections(2)
+		for ai, apf := range secs {
+			for bi, bpf := range secs {
+				ra, rb := rsecs[(ai+bi)%len(rsecs)], rsecs[(ai*3+bi+1)%len(rsecs)]
+				a, b := c08Bind{apf, three("a"), ra}, c08Bind{bpf, three("b"), rb}
+				label := fmt.Sprintf("first(pf=%v rf=%v) second(pf=%v rf=%v)", apf, ra, bpf, rb)
+				emit(explore.Case{Family: "two-portals", Size: 6, Desc: func() any { return label },
+					Run: func() explore.Result { return c08RunTwoPortals(a, b, label) }})
+			}
+		}
+		for _, ra := range rsecs {
+			for _, rb := range rsecs {
+				a, b := c08Bind{nil, three("a"), ra}, c08Bind{nil, three("b"), rb}
+				label := fmt.Sprintf("first(rf=%v) second(rf=%v)", ra, rb)
+				emit(explore.Case{Family: "two-portals", Size: 6, Desc: func() any { return label },
+					Run: func() explore.Result { return c08RunTwoPortals(a, b, label) }})
+			}
+		}
+		// large values around / above the 4 KiB allocation granule
+		for _, sz := range [][2]int{{6000, 5000}, {5000, 6000}, {4097, 4096}, {4096, 100}, {100, 7000}} {
+			a, b := c08Bind{nil, [][]byte{bytes.Repeat([]byte{'A'}, sz[0])}, nil}, c08Bind{nil, [][]byte{bytes.Repeat([]byte{'b'}, sz[1])}, nil}
+			label := fmt.Sprintf("first(%d-byte value) second(%d-byte value)", sz[0], sz[1])
+			emit(explore.Case{Family: "two-portals", Size: 7, Desc: func() any { return label },
+				Run: func() explore.Result { return c08RunTwoPortals(a, b, label) }})
+		}
+	}
 	for cols := 1; cols <= 2; cols++ {
 		secs := formatSections(cols)
 		for _, a := range secs {
